@@ -252,6 +252,16 @@ def main : IO UInt32 := do
   let hashes : List Str := [[], b64Encode true false (toySha ['a']), b64Encode true false (toySha []), (b64Encode true false (toySha ['a'])).dropLast ++ ['A'], b64Encode true false (toySha ['a']) ++ ['\n'], ['x']]
   bad := bad + (← firstDiff "CheckNonce" (nonces.flatMap fun n => hashes.map fun h => (n, h)) (fun p => "nonce=" ++ (match p.1 with | none => "nil" | some v => q v) ++ " hashed=" ++ q p.2)
     (fun p => showM bstr (Gen.Tr.CheckNonce E0 p.1 p.2)) (fun p => bstr (checkNonce toySha p.1 p.2)))
+  -- session clock comparisons: expiry and age around the second boundaries of the clock (E0: 1 000 000 s)
+  let nowN : Int := E0.nowNs
+  let tms : List (Option Int) := [none, some 0, some nowN, some (nowN - 1), some (nowN + 1), some (nowN - 1000000000), some (nowN - 999999999), some (nowN + 500000000), some (nowN - 3600000000000), some 1]
+  let encT : Option Int → Option Int := fun o => o.map fun c => if c = 0 then Go.timeZero else c
+  let showOT : Option Int → String := fun o => match o with | none => "nil" | some c => toString c
+  let Eh : Go.Ext := { E0 with nowNs := nowN + 700000000 }
+  bad := bad + (← firstDiff "IsExpired" tms (fun o => "ExpiresOn=" ++ showOT o ++ " now=" ++ toString Eh.nowNs)
+    (fun o => showM bstr (Gen.Tr.IsExpired Eh (encT o))) (fun o => bstr (O2P.Session.isExpired { expiresOn := o } Eh.nowNs)))
+  bad := bad + (← firstDiff "Age" tms (fun o => "CreatedAt=" ++ showOT o ++ " now=" ++ toString Eh.nowNs)
+    (fun o => showM toString (Gen.Tr.Age Eh (encT o))) (fun o => toString (O2P.Session.ageNs { createdAt := o } Eh.nowNs)))
   IO.println s!"trsearch: {bad} function(s) with a disagreement"
   return (if bad == 0 then 0 else 1)
 
